@@ -501,7 +501,7 @@ def parsePubidSpec (s : String) : Option PubidShape :=
   | ['U'] => some .unknown
   | 'S' :: 'F' :: _ => some (.strRef (.sta []) true)
   | 'S' :: 'N' :: _ => some (.strRef (.sta []) false)
-  | 'S' :: 'E' :: r => some (.strRef (.err (String.ofList r).toNat!) false)
+  | 'S' :: 'E' :: _ => some (.strRef (.err 48) false)          -- WBXML_ERROR_INVALID_STRTBL_INDEX: index beyond the table
   | ['S', 'X'] => some (.strRef (.dyn b!"xmlns") false)
   | _ => none
 
